@@ -158,6 +158,8 @@ def build_world(spec: dict) -> World:
             w.task_list.append((t, task, gi, ti))
     w.workload = R["Workload"].from_task_graphs(graphs)
     w.running = [[] for _ in pools]  # per pool: driver json of the really placed tasks, in placement order
+    w.history = [[] for _ in pools]  # per pool: place / remove operations that built the live cluster, in order
+    w.ghosts = []                    # earlier residents that are still to be removed
     for t, task, gi, ti in w.task_list:
         st = t["state"]
         if st == "VIRTUAL":
@@ -189,9 +191,18 @@ def build_world(spec: dict) -> World:
         task.start(US(prev["time"]))
         if st == "RUNNING":
             ok = pool.place_task(task, execution_strategy=strategy, worker_id=worker.id)
+            if not ok and w.ghosts:
+                # an earlier resident is in the way: it has left by now
+                for gpool, gpi, gtask, ggi, gti in w.ghosts:
+                    gpool.remove_task(US(w.now), gtask)
+                    w.history[gpi].append({"op": "remove", "lid": lid(ggi, gti)})
+                w.ghosts = []
+                ok = pool.place_task(task, execution_strategy=strategy, worker_id=worker.id)
             if not ok:
                 raise RuntimeError("generator produced an over-subscribed RUNNING set")
             task.update_remaining_time(US(prev["remaining"]))
+            w.history[pi].append({"op": "place", "lid": lid(gi, ti), "w": wi, "s": strat_json(w, strategy),
+                                  "strats": [strat_json(w, s) for s in task.available_execution_strategies]})
             w.running[pi].append(
                 {
                     "lid": lid(gi, ti),
@@ -206,10 +217,22 @@ def build_world(spec: dict) -> World:
             task.preempt(US(prev["time"]))
             continue
         if st == "COMPLETED":
+            if prev.get("was_resident"):
+                # it really ran on the worker (placed like the RUNNING tasks, in task order) and has left since: its
+                # resource instances are free again while later arrivals keep theirs
+                if pool.place_task(task, execution_strategy=strategy, worker_id=worker.id):
+                    rec_ = {"op": "place", "lid": lid(gi, ti), "w": wi, "s": strat_json(w, strategy),
+                            "strats": [strat_json(w, s) for s in task.available_execution_strategies]}
+                    w.history[pi].append(rec_)
+                    w.ghosts.append((pool, pi, task, gi, ti))
             task.update_remaining_time(US(0))
             task.finish(US(prev["finish"]))
             continue
         raise ValueError(st)
+    for gpool, gpi, gtask, ggi, gti in w.ghosts:
+        gpool.remove_task(US(w.now), gtask)
+        w.history[gpi].append({"op": "remove", "lid": lid(ggi, gti)})
+    w.ghosts = []
     # work profiles whose load is in progress on a worker (holds resources; the virtual copy must hold them once)
     w.loading = [[] for _ in pools]
     w._loading_keep = []
@@ -402,7 +425,7 @@ def driver_case(w: World, rec: dict) -> dict:
                 vec.append([n, k, q])
                 k += 1
             vecs.append(vec)
-        pools.append({"workers": vecs, "running": w.running[pi], "profiles": w.loading[pi]})
+        pools.append({"workers": vecs, "running": w.running[pi], "history": w.history[pi], "profiles": w.loading[pi]})
     return {
         "suite": SUITE,
         "policy": w.spec["policy"],
@@ -850,6 +873,12 @@ def gen_world(rng, kind: str, policy: str | None = None, widened: bool = False) 
         world["round2"] = True
         if r2.random() < 0.5:
             world["round2_grow"] = {"pick": r2.randrange(8), "extra": r2.randint(1, 6)}
+    if r2.random() < 0.35:
+        # some finished tasks really ran on their worker and left (holes in the per-instance ledger)
+        for g in graphs:
+            for t in g["tasks"]:
+                if t["state"] == "COMPLETED" and t.get("prev") and r2.random() < 0.7:
+                    t["prev"]["was_resident"] = True
     if r2.random() < 0.25:
         # strategies of different batch sizes inside one profile (larger batches are often the FASTER ones): which
         # strategy is the fastest / slowest is a matter of runtime only
